@@ -52,6 +52,16 @@ func menu(tier string) []*item {
 	add("cube-serpentine-reversed", oracle.Chain(false, oracle.MkCube(P(6, 3), P(-1, 4), P(5, 5), o)))
 	add("line+cube-serpentine", oracle.Chain(false, oracle.MkLine(P(-3, 0), o), oracle.MkCube(o, P(5, 5), P(-1, 4), P(6, 3))))
 	add("cube-serpentine-flat", oracle.Chain(false, oracle.MkCube(o, P(4, 2), P(0, -2), P(4, 0.5))))
+	// Beziers whose control points are collinear with the end points and lie beyond them: the curve
+	// runs past an end point and comes back (axis-aligned, diagonal and oblique); the turning points
+	// are exact cusps (the velocity vanishes there)
+	add("quad-collinear-cusp-beyond-end", oracle.Chain(false, oracle.MkQuad(o, P(3, 0), P(2, 0))))
+	add("quad-collinear-cusp-before-start", oracle.Chain(false, oracle.MkQuad(o, P(0, -1), P(0, 2))))
+	add("quad-collinear-cusp-diagonal", oracle.Chain(false, oracle.MkQuad(o, P(3, 3), P(2, 2))))
+	add("quad-collinear-cusp-oblique", oracle.Chain(false, oracle.MkQuad(o, P(6, 3), P(4, 2))))
+	add("line+quad-collinear-cusp-beyond-end", oracle.Chain(false, oracle.MkLine(P(-2, 1), o), oracle.MkQuad(o, P(3, 0), P(2, 0))))
+	add("cube-collinear-two-cusps-beyond-both", oracle.Chain(false, oracle.MkCube(o, P(-1, 0), P(4, 0), P(3, 0))))
+	add("cube-collinear-two-cusps-oblique", oracle.Chain(false, oracle.MkCube(o, P(4, 2), P(-2, -1), P(2, 1))))
 	// closed shapes
 	add("triangle", oracle.Chain(true, oracle.MkLine(o, P(4, 0)), oracle.MkLine(P(4, 0), P(2, 3))))
 	add("closed-quad-cube", oracle.Chain(true, oracle.MkQuad(o, P(2, 2), P(4, 0)), oracle.MkCube(P(4, 0), P(5, -2), P(1, -3), P(1, -1))))
@@ -198,7 +208,7 @@ func checkLength(r *fw.R, it *item) {
 	got := cv.Path(data).Length()
 	rel := math.Abs(got-it.L) / it.L
 	r.Max("length_rel_error:"+kinds(it.sps), rel)
-	if rel > 0.01 {
+	if !(rel <= 0.01) { // (NaN must fail)
 		viol(r, it.sps, "length-off-by-more-than-1-percent", fmt.Sprintf("Length()=%.9g, true arc length %.9g (%.3g %%)", got, it.L, 100*rel))
 	}
 	switch {
@@ -220,7 +230,7 @@ func dataEqual(a, b []float64, tol float64) bool {
 		return false
 	}
 	for i := range a {
-		if math.Abs(a[i]-b[i]) > tol {
+		if !(math.Abs(a[i]-b[i]) <= tol) {
 			return false
 		}
 	}
@@ -285,24 +295,24 @@ func checkReverse(r *fw.R, it *item) {
 			}
 		}
 		r.Max("reverse_pointwise_diff/scale", w/scale)
-		if w > tol {
+		if !(w <= tol) {
 			viol(r, sps, "reverse-different-points", fmt.Sprintf("reversal of subpath %d differs pointwise by %.3g: %s", len(sps)-1-i, w, oracle.Fmt(qd)))
 			return
 		}
 	}
 	// length (true and as reported), bounds
 	lq := oracle.PathLength(rev)
-	if math.Abs(lq-it.L) > 1e-9*it.L {
+	if !(math.Abs(lq-it.L) <= 1e-9*it.L) {
 		viol(r, sps, "reverse-length", fmt.Sprintf("true length %.12g, of the reversal %.12g", it.L, lq))
 	}
-	if a, b := p.Length(), q.Length(); math.Abs(a-b) > 1e-6*it.L {
+	if a, b := p.Length(), q.Length(); !(math.Abs(a-b) <= 1e-6*it.L) {
 		viol(r, sps, "reverse-length", fmt.Sprintf("Length()=%.12g, Reverse().Length()=%.12g", a, b))
 	} else {
 		r.Max("reverse_reported_length_diff/L", math.Abs(a-b)/it.L)
 	}
 	lo1, hi1, _ := oracle.ExactBBoxPath(sps)
 	lo2, hi2, _ := oracle.ExactBBoxPath(rev)
-	if lo1.Dist(lo2) > tol || hi1.Dist(hi2) > tol {
+	if !(lo1.Dist(lo2) <= tol && hi1.Dist(hi2) <= tol) {
 		viol(r, sps, "reverse-bounds", fmt.Sprintf("box %v-%v, of the reversal %v-%v", lo1, hi1, lo2, hi2))
 	}
 	// winding number negated at every decidable sample point (open subpaths implicitly closed)
@@ -423,7 +433,7 @@ func checkSplit(r *fw.R, it *item, tr *oracle.Trace, ts []float64) {
 		cum = append(cum, cum[len(cum)-1]+oracle.PathLengthN(d, 1024))
 	}
 	total := cum[len(cum)-1]
-	if math.Abs(total-it.L) > 1e-6*it.L {
+	if !(math.Abs(total-it.L) <= 1e-5*it.L) { // (the dense summation itself is only good to 1e-6 at cusps)
 		viol(r, sps, "splitat-pieces-are-not-the-path"+sfx, fmt.Sprintf("true length of the path %.9g, of all pieces together %.9g; pieces:%s", it.L, total, desc))
 		return
 	}
@@ -431,7 +441,7 @@ func checkSplit(r *fw.R, it *item, tr *oracle.Trace, ts []float64) {
 	for j, d := range dec {
 		want := tr.BetweenMin(cum[j], cum[j+1], gtol)
 		got := dropShort(polylinesOf(d, 512), gtol)
-		if h := hausdorff(got, want, gtol/2); h > gtol {
+		if h := hausdorff(got, want, gtol/2); !(h <= gtol) {
 			viol(r, sps, "splitat-pieces-are-not-the-path"+sfx, fmt.Sprintf("piece %d is not the stretch [%.6g,%.6g] of the path (Hausdorff %.3g); pieces:%s", j, cum[j], cum[j+1], h, desc))
 			return
 		} else {
@@ -454,7 +464,7 @@ func checkSplit(r *fw.R, it *item, tr *oracle.Trace, ts []float64) {
 			}
 		}
 		kind := "straight"
-		if tol > 1e-9*it.L {
+		if !(tol <= 1e-9*it.L) {
 			kind = "curved"
 		}
 		if bi < 0 || best > tol {
@@ -487,9 +497,9 @@ func checkSplit(r *fw.R, it *item, tr *oracle.Trace, ts []float64) {
 		sum += pc.Length()
 	}
 	whole := cv.Path(data).Length()
-	if math.Abs(whole-it.L) > 0.01*it.L {
+	if !(math.Abs(whole-it.L) <= 0.01*it.L) {
 		r.Count("length_sum_clause_skipped_because_Length_is_off", 1) // reported by the Length clause
-	} else if math.Abs(sum-whole) > 0.01*it.L {
+	} else if !(math.Abs(sum-whole) <= 0.01*it.L) {
 		viol(r, sps, "splitat-lengths-do-not-sum"+sfx, fmt.Sprintf("Length()=%.9g, sum of piece lengths %.9g", whole, sum))
 	} else {
 		r.Max("splitat_length_sum_rel_diff", math.Abs(sum-whole)/it.L)
@@ -554,6 +564,21 @@ func families(tier string) []fw.Family {
 		}
 		return []float64{s}
 	}
+	// third family: a cut position given twice, followed by a later cut
+	type dcase struct {
+		it   *item
+		a, b int
+	}
+	var dcases []dcase
+	for _, it := range items {
+		for a := 0; a < len(it.cands); a++ {
+			for b := 0; b < len(it.cands); b++ {
+				if it.cands[a] > 0 && it.cands[a] < it.cands[b] {
+					dcases = append(dcases, dcase{it, a, b})
+				}
+			}
+		}
+	}
 	name := "path-menu x split sets of size <= 2"
 	if tier == "thorough" {
 		name = "path-menu x split sets of size <= 3"
@@ -604,6 +629,26 @@ func families(tier string) []fw.Family {
 			c := vcases[i]
 			return fmt.Sprintf("%s [%s] L=%.9g SplitAt(%v) (Length() of the first %d segments)", curvefam.Desc(c.it.sps), c.it.name, c.it.L, vcuts(c), c.k)
 		},
+	}, {
+		Name: "path-menu x a cut given twice and a later cut", N: int64(len(dcases)),
+		Check: func(i int64, r *fw.R) {
+			c := dcases[i]
+			if !oracle.ArcsWellConditioned(c.it.sps) {
+				r.Outcome("skipped:arc-centre-ill-conditioned")
+				return
+			}
+			tr := traces[c.it]
+			if tr == nil {
+				tr = oracle.NewTrace(c.it.sps, 2048)
+				traces[c.it] = tr
+			}
+			checkSplit(r, c.it, tr, []float64{c.it.cands[c.a], c.it.cands[c.a], c.it.cands[c.b]})
+			r.NontrivialIdx()
+		},
+		Desc: func(i int64) string {
+			c := dcases[i]
+			return fmt.Sprintf("%s [%s] L=%.9g SplitAt(%v)", curvefam.Desc(c.it.sps), c.it.name, c.it.L, []float64{c.it.cands[c.a], c.it.cands[c.a], c.it.cands[c.b]})
+		},
 	}}
 }
 
@@ -638,8 +683,8 @@ func Prop() *fw.Property {
 	return &fw.Property{
 		ID:    "C09",
 		Level: "exploration",
-		Rule: "path menu: 12 single curves of every segment type, all 144 ordered two-segment chains (thorough: also closed, and all 144 two-subpath pairs), closed shapes, paths of 2-3 subpaths; x every subset of size <= 2 (thorough <= 3) of the split candidates {0, L/4, L/2, 3L/4, L, every vertex arc length, vertex +- 1e-3}, and cuts at exactly the values Length() returns for the prefixes that end at a vertex (alone, with an earlier and with a later cut); " +
-			"Length within 1 % of the dense-summation length; SplitAt: pieces are consecutive stretches of the path (Hausdorff 1e-4*scale), true lengths add up (1e-6), every requested cut has a piece boundary within tolerance and every boundary was requested, reported lengths sum to Length() (1 %); " +
+		Rule: "path menu: 12 single curves of every segment type, all 144 ordered two-segment chains (thorough: also closed, and all 144 two-subpath pairs), closed shapes, paths of 2-3 subpaths; x every subset of size <= 2 (thorough <= 3) of the split candidates {0, L/4, L/2, 3L/4, L, every vertex arc length, vertex +- 1e-3}, and cuts at exactly the values Length() returns for the prefixes that end at a vertex (alone, with an earlier and with a later cut), and every pair of candidates with the first one given twice; " +
+			"Length within 1 % of the dense-summation length; SplitAt: pieces are consecutive stretches of the path (Hausdorff 1e-4*scale), true lengths add up (1e-5), every requested cut has a piece boundary within tolerance and every boundary was requested, reported lengths sum to Length() (1 %); " +
 			"Reverse: involution, segment-wise same points backwards (1e-9*scale), same closedness/length/box, winding negated at all grid probes farther than 1.1e-3*scale from the path; non-trivial = a non-empty split set",
 		Assumptions: []string{
 			"cut tolerance: 1e-9*L while everything up to the cut is straight, otherwise max(1 % of the curved length up to the end of the segment around the cut, 1e-3): canvas measures curved segments approximately and positions later cuts with that ruler",
